@@ -1248,6 +1248,23 @@ func (ns *normState) inlineInBlock(pk *packages.Package, file *ast.File, body *a
 					}
 				}
 			}
+			// return A && B / A || B with an unknown helper called in B only: B is evaluated on one side of A, so
+			// it cannot be hoisted; the statement is split into its exact branching form and B is inlined in the
+			// next round (if A { return B }; return false  /  if A { return true }; return B)
+			if len(x.Results) == 1 {
+				if be, ok := x.Results[0].(*ast.BinaryExpr); ok && (be.Op == token.LAND || be.Op == token.LOR) {
+					if ns.findTarget(pk, be.X, callees, true) == nil && ns.findTarget(pk, be.Y, callees, true) != nil {
+						a, b := ns.srcText(be.X.Pos(), be.X.End()), ns.srcText(be.Y.Pos(), be.Y.End())
+						text := "if " + a + " {\nreturn " + b + "\n}\nreturn false"
+						if be.Op == token.LOR {
+							text = "if " + a + " {\nreturn true\n}\nreturn " + b
+						}
+						es.add(ns.fset, st.Pos(), st.End(), text)
+						done[st] = true
+						return
+					}
+				}
+			}
 			for _, r := range x.Results {
 				if ns.tryHoist(pk, file, st, r, callees, record) {
 					return
